@@ -58,9 +58,14 @@ type sliceIter struct {
 	i     int
 }
 
-func (s *sliceIter) IsValid() bool          { return s.i < len(s.items) }
-func (s *sliceIter) Next()                  { s.i++ }
-func (s *sliceIter) Current() *qschema.Item { if s.i < len(s.items) { return s.items[s.i] }; return nil }
+func (s *sliceIter) IsValid() bool { return s.i < len(s.items) }
+func (s *sliceIter) Next()         { s.i++ }
+func (s *sliceIter) Current() *qschema.Item {
+	if s.i < len(s.items) {
+		return s.items[s.i]
+	}
+	return nil
+}
 
 func NewEnv(dir string, ds map[string]any) (*Env, error) {
 	path := filepath.Join(dir, "q-"+ds["name"].(string)+".bolt")
@@ -300,7 +305,9 @@ func (e *Env) Run(idx int, c *Case) []Mismatch {
 				// the same predicate through the sorting scanner: same set, same count
 				judge("SortedScan", guard(func() ([]string, int64, error) { return st.QueryIds(tx, Filter(pred)+" sort by m, f desc") }), c.Ids, c.Count, false, true, "C01")
 				// ... and with as many sort fields as the engine takes, on fields that tie: the answer is a set, ties lose nobody
-				judge("SortedScan", guard(func() ([]string, int64, error) { return st.QueryIds(tx, Filter(pred)+" sort by b, b desc, b, b desc, b") }), c.Ids, c.Count, false, true, "C01")
+				judge("SortedScan", guard(func() ([]string, int64, error) {
+					return st.QueryIds(tx, Filter(pred)+" sort by b, b desc, b, b desc, b")
+				}), c.Ids, c.Count, false, true, "C01")
 			}
 		}
 		// through the extended child store: every parent row is visible; through the plain child store: the rows with child data --
